@@ -40,7 +40,11 @@ def check(ctx: Ctx) -> None:
     f_lclose = repo.func(f"{GB}.ChannelFactory._local_close")
     with ctx.obligation("C07.a", "error-type") as ob:
         sites = repo.callsites_flat(f_lclose.qualname)
-        ob.require(len(sites) >= 5, f"{len(sites)} call sites of _local_close (floor 5)")
+        from ._chan import message_registry
+        reg_ = message_registry(repo)
+        need = {reg_[k][1].short for k in (5, 6, 7) if k in reg_} | {"ChannelFactory._local_receive", "ChannelFactory._finished_receiving"}
+        have_callers = {fi.short for fi, _c in sites}
+        ob.require(need <= have_callers, f"_local_close is not called from {sorted(need - have_callers)} (the close handlers, the callback-failure arm and the epilogue must all reach it)")
         for fi, c in sites:
             e = arg(c, 1, "remoteerror")
             r = _is_remote_error_expr(repo, fi, e)
